@@ -184,7 +184,7 @@ func genRace(w *bufio.Writer, r *rng, id int, goroutines, rounds int) {
 	}
 	fmt.Fprintf(w, "seq %s\ngot %s\nonce %s\n", strings.Join(seqs, ","), strings.Join(outs, ","), strings.Join(once, ","))
 	if after > before {
-		fmt.Fprintf(w, "race yes %s\n", e2s(raceSummary(file, before)))
+		fmt.Fprintf(w, "race yes %s\n", tildeOnly(raceSummary(file, before)))
 	} else {
 		fmt.Fprintf(w, "race no\n")
 	}
